@@ -69,9 +69,28 @@ theorem C15_frame (f : Frame) (info : StreamInfo) (checkCrc : Bool) (fb : Bits) 
     Repo.parseFrame info checkCrc (packBytes fb ++ more) = .ok (f, more) :=
   parseFrame_read f info checkCrc fb more hbits hok
 
-/-- (d) Whole streams.  `Repo.StreamOk s`: the STREAMINFO is one `stream_info` accepts (`Repo.InfoOk`:
-block sizes in `1..=32767` with `min ≤ max`, `min_frame ≤ max_frame < 2^24`, rate at most 96000, 1..=8
-channels, 8/12/16/20/24 bits, `total < 2^36`, 16 MD5 bytes), every other metadata block has a type in
+/-- STREAMINFO alone.  `Repo.InfoOk s`: the block sizes are either set (`1 ≤ min ≤ max ≤ 32767`) or the
+initial pair `(65535, 0)` of a `StreamInfo` without frames (`total = 0`); the frame sizes are either real
+(`min ≤ max < 2^24`, not both 0) or the initial pair `(2^32-1, 0)` (written as `(0, 0)` = "unknown");
+rate at most 96000, 1..=8 channels, 8/12/16/20/24 bits, `total < 2^36`, 16 MD5 bytes.  Then `stream_info`
+on what `StreamInfo::write` wrote returns exactly that record.  `k` must be whole bytes. -/
+theorem C15_streaminfo (s : StreamInfo) (k : Bits) (hok : Repo.InfoOk s) (hk : k.length % 8 = 0) :
+    Repo.streamInfo (s.bits ++ k) = .ok (s, k) :=
+  streamInfo_read s hok k hk
+
+/-- The only frame sizes excluded by `Repo.InfoOk`: `(0, 0)` (and any other pair with `min > max`) is
+written as `(0, 0)` and read back as the initial pair `(2^32-1, 0)`; all other fields are read back.
+(A `StreamInfo` that saw a frame never has `max_frame_size = 0`: a frame has at least one byte.) -/
+theorem C15_streaminfo_unknown_frame_sizes (s : StreamInfo) (k : Bits)
+    (hok : Repo.InfoOk { s with minFrame := 2 ^ 32 - 1, maxFrame := 0 })
+    (hz : (s.minFrame = 0 ∧ s.maxFrame = 0) ∨ s.minFrame > s.maxFrame) (hk : k.length % 8 = 0) :
+    Repo.streamInfo (s.bits ++ k) = .ok ({ s with minFrame := 2 ^ 32 - 1, maxFrame := 0 }, k) :=
+  streamInfo_read_zero s hok hz k hk
+
+/-- (d) Whole streams.  `Repo.StreamOk s`: the STREAMINFO is one `stream_info` reads back identically
+(`Repo.InfoOk`, see `C15_streaminfo`: set or initial block sizes, real or initial frame sizes — so also
+the STREAMINFO of a stream without frames —, rate at most 96000, 1..=8 channels, 8/12/16/20/24 bits,
+`total < 2^36`, 16 MD5 bytes), every other metadata block has a type in
 `1..=126` and fewer than `2^24` bytes, every frame satisfies `FrameOk` for that STREAMINFO.  Then
 `parser::stream` on the bytes `Stream::write` produced consumes them all and returns the stream
 (`PStream.ofStream s` is `s` with its metadata blocks wrapped; `toStream?` gives `s` back). -/
@@ -111,7 +130,7 @@ example :
 /-- A stereo left/side frame of 4 samples (fixed predictor of order 2 on the left channel, a 17-bit
 constant on the side channel), frame number 5: it serialises, satisfies `FrameOk`, and is read back. -/
 private def exInfo : StreamInfo :=
-  { minBlock := 4, maxBlock := 4, minFrame := 0, maxFrame := 0, rate := 44100, channels := 2, bps := 16, total := 4,
+  { minBlock := 4, maxBlock := 4, minFrame := 20, maxFrame := 20, rate := 44100, channels := 2, bps := 16, total := 4,
     md5 := List.replicate 16 0 }
 private def exFrame : Frame :=
   { header := { isVariable := false, blockSizeSpec := .extraByte 3, assignment := .leftSide, sampleSizeTag := 4,
@@ -141,7 +160,7 @@ private def exStream : Stream :=
 
 set_option maxRecDepth 100000 in
 example : Repo.StreamOk exStream :=
-  { info := { minBlock := by decide, maxBlock := by decide, blocks := by decide, frames := by decide,
+  { info := { blocks := by decide, frames := by decide,
               rate := by decide, channels := by decide, bps := by decide, total := by decide,
               md5len := by decide, md5 := by decide },
     metas := by
@@ -155,5 +174,44 @@ example : Repo.StreamOk exStream :=
       subst hf
       exact { hdr := by decide, channels := by decide, count := by decide, bps := by decide, bpsRange := by decide,
               subs := by decide } }
+
+/-- The stream of an empty input as the encoder leaves it (`set_block_sizes(4096, 4096)`, no frame, so
+the frame sizes are still the initial `(u32::MAX, 0)`), and a `Stream::new` stream that was never
+touched (block sizes initial too): both satisfy `StreamOk`, so both are read back identically. -/
+private def exEmpty : Stream :=
+  { info := { StreamInfo.empty 44100 2 16 with minBlock := 4096, maxBlock := 4096 }, metadata := [], frames := [] }
+private def exNew : Stream :=
+  { info := StreamInfo.empty 44100 2 16, metadata := [], frames := [] }
+
+set_option maxRecDepth 100000 in
+private theorem exEmpty_ok : Repo.StreamOk exEmpty :=
+  { info := { blocks := by decide, frames := by decide,
+              rate := by decide, channels := by decide, bps := by decide, total := by decide,
+              md5len := by decide, md5 := by decide },
+    metas := by intro m hm; cases hm
+    frames := by intro f hf; cases hf }
+
+set_option maxRecDepth 100000 in
+private theorem exNew_ok : Repo.StreamOk exNew :=
+  { info := { blocks := by decide, frames := by decide,
+              rate := by decide, channels := by decide, bps := by decide, total := by decide,
+              md5len := by decide, md5 := by decide },
+    metas := by intro m hm; cases hm
+    frames := by intro f hf; cases hf }
+
+set_option maxRecDepth 100000 in
+example : ∃ sb, exEmpty.bits rfcCrc8 rfcCrc16 = some sb ∧
+    Repo.parseStream (packBytes sb) = .ok (Repo.PStream.ofStream exEmpty) :=
+  ⟨_, rfl, (C15_stream exEmpty _ rfl exEmpty_ok).1⟩
+
+set_option maxRecDepth 100000 in
+example : ∃ sb, exNew.bits rfcCrc8 rfcCrc16 = some sb ∧
+    Repo.parseStream (packBytes sb) = .ok (Repo.PStream.ofStream exNew) :=
+  ⟨_, rfl, (C15_stream exNew _ rfl exNew_ok).1⟩
+
+set_option maxRecDepth 100000 in
+/-- The STREAMINFO blocks of these two streams, evaluated: `stream_info` returns the same record. -/
+example : Repo.streamInfo exEmpty.info.bits = .ok (exEmpty.info, []) ∧
+    Repo.streamInfo exNew.info.bits = .ok (exNew.info, []) := by decide
 
 end FlacVerif
